@@ -626,3 +626,54 @@ def ob_continued_run_reports_its_own_state(left: int, reuse: bool) -> bool:
     if out["problems"] and __import__("os").environ.get("VERIF_DEBUG"):
         __import__("sys").stderr.write(f"[continued left={left} reuse={reuse}] {out['problems']}\n")
     return not out["problems"]
+
+
+# ------------------------------------------------------------------------------------------------ a log that spans a resume
+# The tick log of a run that was resumed (server restart, idle reload, continued context) continues in the SAME log.  The live resumed life
+# starts from rewind_in_progress(state rebuilt from the earlier ticks); a later rebuild folds ALL ticks over the original init state and
+# rewinds only once, at the very beginning.  The two must agree on what is still pending after the resumed life's first step result.
+from vlib.world import broker as _broker, in_progress as _ipw, step_config as _scfg, worker_state as _wst  # noqa: E402
+from workflows.runtime.types.internal_state import EventAttempt  # noqa: E402
+
+_RA = [EvA(), EvA(), EvA()]      # distinct event objects, one per busy slot
+_RQ = [EvA(), EvA()]             # queued behind them
+
+
+def _pending(state) -> list:
+    ws = state.workers["a"]
+    return sorted([id(x.event) for x in ws.in_progress] + [id(x.event) for x in ws.queue])
+
+
+def resumed_with_work_in_flight(nw: int, b0: bool, b1: bool, b2: bool) -> bool:
+    """class of KF-C11-2: at the junction an invocation is in flight and rewinding changes its slot or the slot order (anything but 'only slot
+    0 busy'): rewind_in_progress re-admits interrupted invocations in REVERSED order with ids from 0"""
+    return b1 or b2
+
+
+@obligation(quick=120, thorough=300, partitions_quick=[f"nw == {n}" for n in (1, 2, 3)],
+            what="a run is resumed with invocations in flight (any busy slots, any queue) and its resumed life reports its first step result into "
+                 "the same tick log: folding that tick over the un-rewound junction state (what a later rebuild of the whole log does) leaves "
+                 "the same events pending as the live resumed life — no error, no invocation completed in place of another",
+            bounds={"num_workers": "1..3", "busy slots at the junction": "any subset", "queue": "0..2", "reporting worker": "any of the resumed life's"})
+def ob_replay_across_a_resume(nw: int, b0: bool, b1: bool, b2: bool, q: int, pick: int) -> bool:
+    """
+    pre: 1 <= nw <= 3 and 0 <= q <= 2 and 0 <= pick <= 2
+    pre: (b0 or b1 or b2) and (nw >= 2 or not b1) and (nw >= 3 or not b2)
+    post: _
+    """
+    nw, q, pick = conc(nw, 1, 3), conc(q, 0, 2), conc(pick, 0, 2)
+    b0, b1, b2 = concb(b0), concb(b1), concb(b2)
+    cfg = _scfg([EvA], nw, None)
+    ips = [_ipw("a", _RA[i], i) for i, b in enumerate((b0, b1, b2)) if b]
+    queue = [EventAttempt(event=_RQ[i]) for i in range(q)] if len(ips) >= nw else []
+    st = _broker({"a": _wst(cfg, queue, ips, {}, []), "b": _wst(_scfg([EvB, StartEvent], 1, None), [], [], {}, [])})
+    live0, _ = rewind_in_progress(st, 1)
+    running = live0.workers["a"].in_progress
+    ip = running[pick % len(running)]
+    tick = TickStepResult.model_construct(step_name="a", worker_id=ip.worker_id, event=ip.event, result=[StepWorkerResult(result=None)])
+    live1, _ = _reduce_tick(tick, live0, 2, "r")
+    try:
+        rep1, _ = _reduce_tick(tick, st, 2, "r")
+    except Exception:  # noqa: BLE001 - "Worker N not found in in_progress": the log cannot be replayed at all
+        return False
+    return _pending(rep1) == _pending(live1)
